@@ -215,3 +215,23 @@ def moved_promoted(new, old, pos):
             and forall(range(0, n - 1), lambda i: same_entry(new.data[i + (1 if i >= p else 0)], old.data[i + (1 if i >= pos else 0)])),
         )
     )
+
+
+HB_PASHA = "syne_tune.optimizer.schedulers.hyperband_pasha"
+
+
+def pasha_inv(rs):
+    """rungsys invariant plus: the current cap is a rung level or max_t, and at least one rung"""
+    out = rungsys_inv(rs)
+    n = len(rs._rungs)
+    out["at-least-one-rung"] = n >= 1
+    out["cap-is-level"] = rs.current_max_t == rs._max_t or exists(range(0, n), lambda i: rs._rungs[i].level == rs.current_max_t)
+    return out
+
+
+declare_class(
+    "PASHARungSystem",
+    HB_PASHA + ":PASHARungSystem",
+    dict(num_rungs=Int, _metric=Lit("loss"), _mode=Enum("min", "max"), _resource_attr=Lit("epoch"), _max_t=Int, _rungs=List(Obj("PRung")), _running=RUNNING_T, current_max_t=Int, current_rung_idx=Int),
+    inv="pasha_inv",
+)
